@@ -62,6 +62,24 @@ NATIVE_PROBES = [
     "1.2.3.4", "01.2.3.4", "1.2.3", "255.255.255.255", "256.1.1.1", "1.2.3.4 ", "::1", "::0001", "1::", "::",
     "::ffff:1.2.3.4", "[::1]", "fe80::1%eth0", "0:0:0:0:0:0:0:1", "2001:DB8::1", "2001:db8::1",
 ]
+# candidate texts from which samples of a native type that has no hand-written probes are found:
+# whatever parses (FromStr) or deserialises is a sample; its Display and serialised forms are fed
+# back as further probes
+ISO_POOL = [
+    "2024-02-29T12:34:56", "2024-02-29 12:34:56", "2024-02-29T12:34:56.789", "2024-02-29T12:34:56Z", "2024-02-29T12:34",
+    "2024-02-29T12:34:56+01:00", "2024-W09-4", "2024-060", "12:34:56", "12:34:56.789", "12:34", "12:34:56Z",
+    "12:34:56+01:00", "PT1S", "P1D", "P1Y2M3DT4H5M6S", "1s", "1.5", "42", "-7", "example.com", "user@example.com",
+    "http://example.com/", "https://example.com/a?b=c#d", "urn:isbn:0", "/a/b", "1.2.3.0/24", "10.0.0.0/8", "::/0",
+    "2001:db8::/32", "00:11:22:33:44:55", "aGVsbG8=", "^a+$", "UTC", "+01:00",
+]
+# string formats typify does NOT recognise today (they fall back to String); each gets a probe module so
+# that a format arm added to convert_string is exercised the day it appears
+PLAUSIBLE_FORMATS = [
+    "partial-date-time", "time", "partial-time", "duration", "hostname", "idn-hostname", "email", "idn-email", "uri",
+    "uri-reference", "iri", "url", "ipv4-network", "ipv6-network", "ip-network", "regex", "json-pointer", "byte",
+    "binary", "password", "datetime", "date_time", "naive-date-time", "local-date-time", "mac", "decimal", "int64",
+]
+DT_UTC = "::chrono::DateTime<::chrono::offset::Utc>"    # the ONLY native finding C11-F2 is keyed to
 NONSTRING_JSON = ["null", "0", "true", "[]", "{}", "[\"a\"]"]
 
 PATTERNS = ["^a+$", "b", "^[0-9]{3}-[0-9]{4}$", "^\\p{Lu}", "^[\\u00e0-\\u00ff]+$", "é+", "^.{2}$", "^$", "bc$",
@@ -216,6 +234,63 @@ def random_cases(ctx, n):
     return out
 
 
+def source_formats(ctx):
+    """String formats recognised by the CURRENT convert.rs: the syn translator `vh tables` (the one that
+    regenerates Gen/IntTable.v for C10, here writing into a scratch directory) plus a textual scan of the
+    arms of convert_string; returns ({format: native path or None}, translator_ok, detail)."""
+    import re
+    fm = {}
+    out_dir = os.path.join(vlib.WORK, "c11tables")
+    os.makedirs(out_dir, exist_ok=True)
+    ok, detail = True, ""
+    try:
+        rc, out, err = vlib.sh([vlib.VH, "tables", vlib.REPO, out_dir, "int"], timeout=300)
+        if rc != 0:
+            ok, detail = False, (out + err)[-2000:]
+        else:
+            txt = open(os.path.join(out_dir, "IntTable.v")).read()
+            m = re.search(r"Definition string_formats[^:]*:[^=]*:=(.*?)\]\.", txt, re.S)
+            if not m:
+                ok, detail = False, "string_formats not found in translator output"
+            else:
+                for k, v in re.findall(r'\("([^"]*)",\s*"([^"]*)"\)', m.group(1)):
+                    fm[k] = v
+    except Exception as e:  # noqa
+        ok, detail = False, repr(e)
+    try:
+        src = open(os.path.join(vlib.REPO, "typify-impl", "src", "convert.rs")).read()
+        a = src.index("fn convert_string")
+        b = src.find("\n    fn ", a + 10)
+        b2 = src.find("\n    pub(crate) fn ", a + 10)
+        ends = [x for x in (b, b2) if x > 0]
+        body = src[a:min(ends) if ends else len(src)]
+        for pat in re.findall(r"Some\(([^()]*)\)\s*(?:=>|if\b)", body):
+            for lit in re.findall(r'"([^"]*)"', pat):
+                fm.setdefault(lit, None)
+    except Exception as e:  # noqa
+        ok, detail = False, detail + " / source scan: " + repr(e)
+    return fm, ok, detail
+
+
+def format_cases(fmts):
+    """one module per string format: a named newtype, a required property, an all-string untagged oneOf"""
+    out = []
+    for f in fmts:
+        out.append(("fmt:" + f, D(
+            Fm=S(format=f),
+            FmHolder={"type": "object", "properties": {"p": S(format=f)}, "required": ["p"]},
+            FmOr={"oneOf": [S(format=f), S(pattern="^never$")]},
+            OrFm={"oneOf": [S(maxLength=0), S(format=f)]},
+        ), "ok"))
+        if MUT == "seed_partial_date_time" and f == "partial-date-time":
+            # emulates a new convert_string arm `"partial-date-time" => new_native("::chrono::naive::NaiveDateTime",
+            # [Display, FromStr])` through the public conversion setting (same IR: a native with that impl list)
+            out[-1][1]["settings"] = {"convert": [{"schema": {"type": "string", "format": f},
+                                                    "type": "::chrono::naive::NaiveDateTime",
+                                                    "impls": ["Display", "FromStr"]}]}
+    return out
+
+
 def corpus_cases():
     out = []
     cdir = os.path.join(vlib.ROOT, "corpus", "C11")
@@ -258,6 +333,19 @@ where T: ::std::str::FromStr + ::std::fmt::Display + ::serde::Serialize + ::serd
         "ser": p.as_ref().map(|x| ::serde_json::to_value(x).unwrap_or(::serde_json::Value::Null))})
 }
 '''
+# same without a Display bound / without FromStr (natives whose impl list lacks them)
+CHUNK_NAT_ND = CHUNK_NAT.replace("c11_nat<T>", "c11_nat_nd<T>").replace(" + ::std::fmt::Display", "") \
+    .replace("&& a.to_string() == b.to_string()", "").replace("p.as_ref().map(|x| x.to_string())", "None::<String>")
+CHUNK_NAT_NF = r'''
+pub fn c11_nat_nf<T>(input: &::serde_json::Value) -> ::serde_json::Value
+where T: ::serde::Serialize + ::serde::de::DeserializeOwned {
+    let s = input.as_str().unwrap_or("");
+    let d = ::serde_json::from_value::<T>(::serde_json::Value::String(s.to_string())).ok();
+    ::serde_json::json!({"parse": false, "de": d.is_some(), "same": ::serde_json::Value::Null, "nofromstr": true,
+        "display": None::<String>,
+        "ser": d.as_ref().map(|x| ::serde_json::to_value(x).unwrap_or(::serde_json::Value::Null))})
+}
+'''
 
 
 def chunks_fn(i, gen):
@@ -271,9 +359,17 @@ def chunks_fn(i, gen):
         if op == "de":
             dbg.append((n, "dbg_de", "c11_dbg_de::<super::%s>(input)" % n))
     chunks.append(("c11dbg", CHUNK_DBG, dbg))
-    names = {e.get("type_name") for e in gen["dump"]["entries"].values() if e["kind"] == "native"}
-    if set(NATIVES.values()) <= names:
-        chunks.append(("c11nat", CHUNK_NAT, [(t, "c11nat", "c11_nat::<%s>(input)" % t) for t in NATIVES.values()]))
+    # native oracle: the three generic functions once, then one arm-only chunk per native type that
+    # occurs in THIS dump, whatever it is (an arm whose bounds fail is dropped and reported)
+    nats = {}
+    for e in gen["dump"]["entries"].values():
+        if e["kind"] == "native" and not e.get("params"):
+            nats[e["type_name"]] = e.get("impls", [])
+    if nats:
+        chunks.append(("c11natfns", CHUNK_NAT + CHUNK_NAT_ND + CHUNK_NAT_NF, []))
+    for k, (t, impls) in enumerate(sorted(nats.items())):
+        fn = "c11_nat_nf" if "FromStr" not in impls else ("c11_nat_nd" if "Display" not in impls else "c11_nat")
+        chunks.append(("c11nat%d" % k, "", [(t, "c11nat", "%s::<%s>(input)" % (fn, t))]))
     return chunks
 
 
@@ -397,8 +493,11 @@ def run(ctx):
         "section variable re_match = regress::Regex::find (tabulated by `c11 regress` from the real crate for every "
         "(pattern, probe) pair evaluated)",
         "section variables native_parse/native_display/native_ser (tabulated from the compiled uuid/chrono/std::net "
-        "implementations); assumption A1: FromStr and Deserialize-from-string of a native type accept the same strings "
-        "and yield equal values - validated on every probe string for the six string-format natives",
+        "implementations for EVERY native type that occurs in a dump of the run - the set is not fixed: the world has "
+        "one module per string-format arm found in the current convert.rs plus plausible unrecognised formats, and "
+        "samples of an unknown native are found by parsing a candidate pool); assumption A1: FromStr and "
+        "Deserialize-from-string of a native type accept the same strings and yield equal values - obliged on every "
+        "(native, probe) pair; section variable string_native = natives all of whose samples serialise to JSON strings",
         "rustc's format-string grammar as modelled by fmt_render ({{ and }} escapes; any other brace is not a literal), "
         "applied to the escaped literal (fmt_escape = the two str::replace calls of the fix a0ebad5)",
     ]
@@ -419,6 +518,12 @@ def run(ctx):
 
     # ---------------- world
     specs = [(n, c, e, []) for (n, c, e) in curated_cases()]
+    fmt_table, tr_ok, tr_detail = source_formats(ctx)
+    ctx.oblige("translator: string-format arms of convert_string read from the current source", tr_ok and bool(fmt_table),
+               tr_detail)
+    ctx.coverage["string_formats_in_source"] = fmt_table
+    fmts = sorted(fmt_table) + [f for f in PLAUSIBLE_FORMATS if f not in fmt_table]
+    specs += [(n, c, e, []) for (n, c, e) in format_cases(fmts)]
     specs += corpus_cases()
     if ctx.replay:
         c = json.load(open(ctx.replay))
@@ -447,6 +552,45 @@ def run(ctx):
     ctx.oblige("world: every curated module is generated and compiles", not unexpected,
                json.dumps(unexpected[:4])[:3000])
 
+    # ---------------- native oracle, phase 1: samples for EVERY native type of any dump
+    nat_host = {}     # native type name -> module index whose driver hosts its c11nat arm
+    nat_schema = {}   # native type name -> a schema (defs) that yields it
+    for i, sp in enumerate(specs):
+        if w.status[i] == "not-generated":
+            continue
+        for ty in module_natives(w.gen[i]["dump"]):
+            nat_schema.setdefault(ty, sp[1]["steps"][0]["defs"])
+            if ty not in nat_host and w.status[i] == "ok" and w.has_arm(i, ty, "c11nat"):
+                nat_host[ty] = i
+    nat_tab = {}
+
+    def nat_query(pairs):
+        reqs = [{"m": nat_host[ty], "t": ty, "op": "c11nat", "input": s_} for ty, s_ in pairs
+                if ty in nat_host and (ty, s_) not in nat_tab]
+        seen_, uniq = set(), []
+        for r_ in reqs:
+            if (r_["t"], r_["input"]) not in seen_:
+                seen_.add((r_["t"], r_["input"]))
+                uniq.append(r_)
+        for rq, a_ in zip(uniq, w.query(uniq)):
+            nat_tab[(rq["t"], rq["input"])] = a_
+        ctx.evaluations += len(uniq)
+
+    pool = []
+    for s_ in GENERIC + NATIVE_PROBES + ISO_POOL:
+        if s_ not in pool:
+            pool.append(s_)
+    nat_query([(ty, s_) for ty in sorted(nat_schema) for s_ in pool])
+    derived = {}      # native -> strings its own Display / Serialize produced (fed back as probes)
+    for ty in sorted(nat_schema):
+        ds = []
+        for s_ in pool:
+            a_ = nat_tab.get((ty, s_), {})
+            for v_ in (a_.get("display"), a_.get("ser")):
+                if isinstance(v_, str) and v_ not in ds and v_ not in pool:
+                    ds.append(v_)
+        derived[ty] = ds[:24]
+
     # ---------------- probes and tables
     mods = []   # (i, name, gen, [(tid, tname, probes)])
     for i, (name, case, expect, extra) in enumerate(specs):
@@ -457,8 +601,15 @@ def run(ctx):
         nats = module_natives(dump)
         tl = []
         for tid, tname in named_types(g):
-            ps = list(GENERIC)
-            ps += NATIVE_PROBES if nats else NATIVE_PROBES[::6]
+            if name.startswith("fmt:") and not nats:
+                ps = GENERIC[::4] + NATIVE_PROBES[::8] + ISO_POOL[::6]    # unrecognised format: a plain String
+            elif name.startswith("fmt:"):
+                ps = GENERIC[::3] + NATIVE_PROBES + ISO_POOL
+            else:
+                ps = list(GENERIC)
+                ps += (NATIVE_PROBES + ISO_POOL) if nats else NATIVE_PROBES[::6]
+            for ty in nats:
+                ps = ps + [x for x in derived.get(ty, []) if x not in ps]
             for s in probes_for(dump, tid, extra):
                 if s not in ps:
                     ps.append(s)
@@ -483,41 +634,46 @@ def run(ctx):
             re_tab[(p, s)] = b
     ctx.coverage["regress_table_entries"] = len(re_tab)
 
-    # native tables from the compiled crates
-    nat_mod = None
-    for i, name, g, tl in mods:
-        if w.status[i] == "ok" and any(a == ("::uuid::Uuid", "c11nat") for a in w.arms.get(i, [])):
-            nat_mod = i
-            break
-    nat_strings = {}
-    for i, name, g, tl in mods:
-        for ty in module_natives(g["dump"]):
-            for _t, _n, ps in tl:
-                nat_strings.setdefault(ty, set()).update(ps)
-    nat_tab = {}
+    # native oracle, phase 2: every (native, probe) pair the model will be asked about
+    nat_query([(ty, s_) for i, name, g, tl in mods for ty in module_natives(g["dump"])
+               for _t, _n, ps in tl for s_ in ps])
+    all_nats = sorted(nat_schema)
+    no_host = [ty for ty in all_nats if ty not in nat_host]
+    ctx.oblige("native oracle: every native type of every dump is reachable in the compiled world (%d types)" % len(all_nats),
+               not no_host, json.dumps([{"native": ty, "schema": nat_schema[ty]} for ty in no_host])[:2000])
+    samples = {ty: [s_ for (t_, s_), a_ in sorted(nat_tab.items()) if t_ == ty and (a_.get("parse") or a_.get("de"))]
+               for ty in all_nats}
+    no_sample = [ty for ty in all_nats if ty in nat_host and not samples[ty]]
+    ctx.oblige("native oracle: a sample value was found for every native type (candidate pool of %d texts)" % len(pool),
+               not no_sample, json.dumps([{"native": ty, "schema": nat_schema[ty]} for ty in no_sample])[:2000])
     a1_bad = []
-    if nat_mod is None:
-        ctx.oblige("native oracle chunk compiled", False, "no module hosts the c11nat chunk")
-    else:
-        reqs = []
-        for ty in sorted(nat_strings):
-            if ty not in NATIVES.values():
-                continue
-            for s in sorted(nat_strings[ty]):
-                reqs.append({"m": nat_mod, "t": ty, "op": "c11nat", "input": s})
-        ans = w.query(reqs)
-        for rq, a in zip(reqs, ans):
-            nat_tab[(rq["t"], rq["input"])] = a
-            if a.get("parse") != a.get("de") or (a.get("parse") and a.get("same") is not True):
-                a1_bad.append({"type": rq["t"], "s": rq["input"], "answer": a})
-        ctx.oblige("assumption A1: native FromStr and Deserialize-from-string agree on %d (type, probe) pairs" % len(reqs),
-                   not a1_bad, json.dumps(a1_bad[:4]))
-        ctx.evaluations += len(reqs)
+    for (ty, s_), a_ in sorted(nat_tab.items()):
+        if a_.get("nofromstr"):
+            continue
+        if a_.get("parse") != a_.get("de") or (a_.get("parse") and a_.get("same") is not True):
+            a1_bad.append({"native": ty, "s": s_, "answer": a_, "schema": nat_schema[ty]})
+    ctx.oblige("assumption A1: native FromStr and Deserialize-from-string agree on %d (type, probe) pairs, %d native "
+               "types" % (len(nat_tab), len(all_nats)), not a1_bad, json.dumps(a1_bad[:4])[:3000])
     native_fmt_bad = {}
-    for (ty, s), a in nat_tab.items():
-        if a.get("parse") and a.get("display") != a.get("ser"):
-            native_fmt_bad.setdefault(ty, []).append((s, a.get("display"), a.get("ser")))
+    nonstring_ser = {}
+    for (ty, s_), a_ in sorted(nat_tab.items()):
+        if (a_.get("parse") or a_.get("de")) and not isinstance(a_.get("ser"), str):
+            nonstring_ser.setdefault(ty, []).append((s_, a_.get("ser")))
+        if a_.get("parse") and a_.get("display") is not None and a_.get("display") != a_.get("ser"):
+            native_fmt_bad.setdefault(ty, []).append((s_, a_.get("display"), a_.get("ser")))
+    ctx.coverage["natives"] = {ty: {"samples": len(samples[ty]), "display_eq_ser": ty not in native_fmt_bad,
+                                    "string_wired": bool(samples[ty]) and ty not in nonstring_ser} for ty in all_nats}
     ctx.coverage["natives_display_differs_from_serialize"] = {k: v[:2] for k, v in native_fmt_bad.items()}
+    # hypothesis Hnat of C11_display_is_ser, per native: only DateTime<Utc> (finding C11-F2) may fail it
+    f2_listed = any(f.get("class") == "display-of-chrono-datetime-differs-from-rfc3339-serialization"
+                    for f in ctx.findings_for())
+    hnat_bad = [{"native": ty, "examples": v[:2], "schema": nat_schema[ty]} for ty, v in sorted(native_fmt_bad.items())
+                if not (ty == DT_UTC and f2_listed)]
+    ctx.oblige("hypothesis Hnat: Display = Serialize for every native type of the run except the listed "
+               "chrono DateTime<Utc> (C11-F2)", not hnat_bad, json.dumps(hnat_bad[:3])[:3000])
+    string_natives = [ty for ty in all_nats if samples[ty] and ty not in nonstring_ser]
+    unknown_nat = [ty for ty in all_nats if ty not in NATIVES.values()]
+    ctx.coverage["natives_not_in_the_pinned_set"] = unknown_nat
 
     # ---------------- implementation answers
     OPS = ["parse", "try_from_str", "try_from_string", "try_from_ref_string", "de", "display", "dbg_parse", "dbg_de"]
@@ -574,20 +730,22 @@ def run(ctx):
                 used_re, lambda kv: "(%s, %s, %s)" % (tocoq.ustr(kv[0][0]), tocoq.ustr(kv[0][1]), tocoq.cbool(kv[1])),
                 "(ustring * ustring * bool)"))
             mine = [kv for kv in nl if kv[0][0] in nats and kv[0][1] in pset and kv[1].get("parse")]
+            mine_d = [kv for kv in mine if isinstance(kv[1].get("display"), str)]
             hdr.append("Definition np_tab : list (ustring * ustring * bool) := %s.\n" % tocoq.clist(
                 mine, lambda kv: "(%s, %s, true)" % (tocoq.ustr(kv[0][0]), tocoq.ustr(kv[0][1])),
                 "(ustring * ustring * bool)"))
             hdr.append("Definition nd_tab : list (ustring * ustring * ustring) := %s.\n" % tocoq.clist(
-                mine, lambda kv: "(%s, %s, %s)" % (tocoq.ustr(kv[0][0]), tocoq.ustr(kv[0][1]), tocoq.ustr(kv[1]["display"])),
+                mine_d, lambda kv: "(%s, %s, %s)" % (tocoq.ustr(kv[0][0]), tocoq.ustr(kv[0][1]), tocoq.ustr(kv[1]["display"])),
                 "(ustring * ustring * ustring)"))
             hdr.append("Definition ns_tab : list (ustring * ustring * ustring) := %s.\n" % tocoq.clist(
                 [kv for kv in mine if isinstance(kv[1].get("ser"), str)],
                 lambda kv: "(%s, %s, %s)" % (tocoq.ustr(kv[0][0]), tocoq.ustr(kv[0][1]), tocoq.ustr(kv[1]["ser"])),
                 "(ustring * ustring * ustring)"))
+            hdr.append("Definition sn_tab : list ustring := %s.\n" % tocoq.clist(string_natives, tocoq.ustr, "ustring"))
             hdr.append("Definition T_%d : space := %s.\n" % (i, tocoq.cspace(g["dump"])))
             ex, ks = [], []
             for tid, tname, ps in tl:
-                ex.append("show_static T_%d %d%%N" % (i, tid))
+                ex.append("show_static sn_tab T_%d %d%%N" % (i, tid))
                 ks.append(("static", i, tid, None))
                 for s in ps:
                     ex.append("show_probe re_tab np_tab nd_tab ns_tab T_%d %d%%N %s" % (i, tid, tocoq.ustr(s)))
@@ -788,7 +946,8 @@ def run(ctx):
                     if shown != di.get("ser"):
                         found.append({"kind": "display-vs-serialize", "case": name, "type": tname, "s": s,
                                       "to_string": shown, "ser": di.get("ser"),
-                                      "defs": specs[i][1]["steps"][0]["defs"], "entry": e})
+                                      "defs": specs[i][1]["steps"][0]["defs"], "entry": e,
+                                      "natives": reachable_natives(g["dump"], tid)})
     # compile failures of the Display template and the `{self}` capture
     for i, name in brace_compile:
         found.append({"kind": "display-template-does-not-compile", "case": name,
@@ -815,7 +974,7 @@ def run(ctx):
     unlisted = []
     reproduced = set()
     for v in found:
-        cls = classify(v, native_fmt_bad)
+        cls = classify(v, nat_tab)
         f = listed.get(cls)
         if f:
             reproduced.add(f["id"])
@@ -902,8 +1061,38 @@ def fmt_render_py(s):
     return "".join(out)
 
 
-def classify(v, native_fmt_bad):
-    """class name of a direct-evaluation violation (narrow), or None"""
+def reachable_natives(dump, tid):
+    """native type names reachable from a type through newtypes, boxes and enum variants"""
+    seen, out = set(), []
+
+    def walk(t):
+        if t in seen:
+            return
+        seen.add(t)
+        e = dump["entries"].get(str(t))
+        if not e:
+            return
+        k = e["kind"]
+        if k == "native":
+            out.append(e["type_name"])
+        elif k == "newtype":
+            walk(e["type_id"])
+        elif k in ("box", "option"):
+            walk(e["id"])
+        elif k == "enum":
+            for v in e["variants"]:
+                if v["details"]["k"] == "item":
+                    walk(v["details"]["id"])
+    walk(tid)
+    return sorted(set(out))
+
+
+def classify(v, nat_tab):
+    """class name of a direct-evaluation violation (narrow), or None.
+
+    C11-F2 is keyed to EXACTLY chrono::DateTime<Utc>: the printed/serialised pair must be one that the
+    native oracle recorded for that very type, and the type must reach that native.  The same disease in
+    any other native type (e.g. a newly recognised format mapped to NaiveDateTime) is NOT in the class."""
     k = v["kind"]
     if k in ("display-template-does-not-compile", "display-template-captures-self"):
         return "simple-enum-raw-name-with-brace-used-as-format-string"
@@ -912,12 +1101,8 @@ def classify(v, native_fmt_bad):
         if e.get("kind") == "enum" and e.get("tag", {}).get("k") == "external" and \
                 any(has_brace(x["raw"]) for x in e.get("variants", [])) and has_brace(v.get("ser") or ""):
             return "simple-enum-raw-name-with-brace-used-as-format-string"
-        dt = NATIVES["date-time"]
-        if dt in native_fmt_bad and looks_like_chrono_display(v.get("to_string"), v.get("ser")):
+        if DT_UTC in v.get("natives", []) and any(
+                ty == DT_UTC and a.get("parse") and a.get("display") == v.get("to_string") and a.get("ser") == v.get("ser")
+                for (ty, _s), a in nat_tab.items()):
             return "display-of-chrono-datetime-differs-from-rfc3339-serialization"
     return None
-
-
-def looks_like_chrono_display(shown, ser):
-    return isinstance(shown, str) and isinstance(ser, str) and shown.endswith(" UTC") and "T" in ser and \
-        shown[:10] == ser[:10]
